@@ -51,6 +51,11 @@ def set_history(app, variant=0):
         elif i % 2 == 0:
             muts.append(mu(k='Add', m='A', f='f%d' % i, ftype='Char',
                            attrs={'max_length': 30}, init='i'))
+        elif variant in (0, 1):
+            # a boolean parameter (the `param` steps of Preview.tla): True in e1, False in e3 - what
+            # the statement shows and binds is the database's own value, 1 / 0
+            muts.append(mu(k='Add', m='A', f='f%d' % i, ftype='Bool', attrs={},
+                           init='i' if i == 1 else 'z'))
         evolutions.append({'label': 'e%d' % i, 'mutations': muts})
     return AppHistory(app, names, base, evolutions)
 
